@@ -8,8 +8,8 @@
  * wake-ups, several occurrences per step); after every step any supervised
  * child may exit.  Ground truth: ORC-cal epoch seconds of each occurrence. */
 #define ECHS_TASK_POOL_INIZ	(1U)
-#define ECHS_CHLD_POOL_INIZ	(1U)
-#define ENV_MAXC 2
+#define ECHS_CHLD_POOL_INIZ	(4U)	/* one allocation for the whole run: pool growth means malloc() of a symbolic size */
+#define ENV_MAXC 4
 #define ENV_MAXP 2
 #include "echsd_env.h"
 #include "cal.h"
@@ -37,6 +37,7 @@ void harness(void)
 {
 	long long ts[NOCC];
 	sym_load();
+	ENV_INIT();
 	ASSUME(in.n >= 0 && in.n <= NOCC);
 	arr_init(&S, (unsigned)in.n);
 	for (unsigned k = 0; k < NOCC; k++) {
